@@ -56,7 +56,7 @@ class IntegerNode(BaseNode, SelectNode):
     def parse(self, env):
         if self.value_fn: # Process function
             with FunctionSolver(env) as s:
-                self.value_raw = s.solve(self.value_fn, self.units_raw)
+                self.value_raw = self.raw_value(s.solve(self.value_fn, self.units_raw), True)
         if self.value_expr: # Process expression
             with NumericalSolver(env) as s:
                 # kept in raw (text) form like every other raw value: a result of 0 is a value
